@@ -126,8 +126,22 @@ class _Positional(ast.NodeTransformer):
     return node
 
 
+def _ifexp_block(stmts):
+  """`if c: x = A else: x = B` → `x = A if c else B` (one spelling for a conditional value)."""
+  for i, st in enumerate(stmts):
+    for field in ('body', 'orelse', 'finalbody'):
+      blk = getattr(st, field, None)
+      if isinstance(blk, list) and blk and isinstance(blk[0], ast.stmt):
+        _ifexp_block(blk)
+    one = lambda b: len(b) == 1 and isinstance(b[0], ast.Assign) and len(b[0].targets) == 1 and isinstance(b[0].targets[0], ast.Name)
+    if isinstance(st, ast.If) and one(st.body) and one(st.orelse) and st.body[0].targets[0].id == st.orelse[0].targets[0].id:
+      stmts[i] = ast.Assign(targets=[ast.Name(id=st.body[0].targets[0].id, ctx=ast.Store())],
+                            value=ast.IfExp(test=st.test, body=st.body[0].value, orelse=st.orelse[0].value), lineno=st.lineno)
+
+
 def normalised(func_node, signatures=None):
   fn = copy.deepcopy(func_node)
+  _ifexp_block(fn.body)
   _inline_block(fn.body, fn)
   if signatures:
     fn = _Positional(signatures).visit(fn)
